@@ -23,7 +23,7 @@ META = {
         'kind a literal alternative can build, the head of its repr resolves in the exec namespace to the class '
         'that built it; (D6) the row loop keeps order, appends exactly on truth, stops at limit, carries '
         'version/metadata/columns; (D7) references are followed only on non-final segments, through the id index; '
-        '(D8) the literal sub-grammar agrees with its ZINC sibling (token languages and unescape step).  Not decided: '
+        '(D8) the literal sub-grammar agrees with its ZINC sibling (token languages and unescape step).  (D8) text chain: the filter text reaches hs_filter.parseString unchanged through filter_function, _filter_function and parse_filter.  Not decided: '
         'semantic equivalence of compiled code and filter over all programs x data as an execution; spacing variants.'),
     'rule_text': 'obligations = grammar-structure facts, fold index coverage, operator-table rows, sentinel methods, '
                  'literal kinds x resolvability, generator branches, loop facts, sibling pairs',
@@ -33,6 +33,7 @@ META = {
 
 MOD = 'grid_filter'
 F = 'hszinc/grid_filter.py'
+FF = F
 PY_CMP = {'==': 'eq', '!=': 'ne', '<': 'lt', '<=': 'le', '>': 'gt', '>=': 'ge'}
 
 
@@ -50,6 +51,64 @@ def run(ctx):
     _row_loop(ctx, m)
     _get_path(ctx, m)
     _siblings(ctx, m, g)
+    _text_chain(ctx, m)
+
+
+TEXT_REWRITERS = ('split', 'join', 'lower', 'upper', 'replace', 'sub', 'translate', 'casefold', 'title', 'swapcase',
+                  'encode', 'format', 'expandtabs')
+
+
+def _text_chain(ctx, m):
+    """(D8) the filter text reaches the grammar unchanged: at every hop filter_function -> _filter_function ->
+    parse_filter -> hs_filter.parseString the argument is the hop's own parameter.  A rewrite on the way (case,
+    whitespace normalisation, substitution) also rewrites string/URI literals inside the filter."""
+    hops = [('filter_function', '_filter_function'), ('_filter_function', 'parse_filter'),
+            ('parse_filter', 'hs_filter.parseString')]
+    n = 0
+    for fname, callee in hops:
+        try:
+            fn = m.func(MOD, fname)
+        except AnalysisError as e:
+            ctx.error('C11.D8', str(e))
+            continue
+        param = fn.args.args[0].arg
+        calls = [c for c in ast.walk(fn) if isinstance(c, ast.Call) and norm(c.func) in (callee, callee.replace('parseString', 'parse_string'))]
+        if len(calls) != 1 or not calls[0].args:
+            ctx.error('C11.D8', '%s: %d calls of %s; cannot decide' % (fname, len(calls), callee))
+            continue
+        c = calls[0]
+        arg = c.args[0]
+        # single-assignment locals
+        seen = 0
+        while isinstance(arg, ast.Name) and arg.id != param and seen < 4:
+            defs = [st for st in ast.walk(fn) if isinstance(st, ast.Assign) and len(st.targets) == 1
+                    and norm(st.targets[0]) == arg.id]
+            if len(defs) != 1:
+                break
+            arg = defs[0].value
+            seen += 1
+        # the parameter itself must not be reassigned before the call
+        rebinds = [st for st in ast.walk(fn) if isinstance(st, (ast.Assign, ast.AugAssign))
+                   and any(norm(t) == param for t in (st.targets if isinstance(st, ast.Assign) else [st.target]))]
+        n += 1
+        where = '%s:%d' % (FF, c.lineno)
+        if isinstance(arg, ast.Name) and arg.id == param and not rebinds:
+            ctx.ob('C11.D8', '%s hands its text unchanged to %s' % (fname, callee), True, where)
+            continue
+        expr = rebinds[0].value if rebinds and isinstance(arg, ast.Name) and arg.id == param else arg
+        used = [x.func.attr for x in ast.walk(expr) if isinstance(x, ast.Call) and isinstance(x.func, ast.Attribute)]
+        if any(u in TEXT_REWRITERS for u in used) and any(isinstance(x, ast.Name) and x.id == param for x in ast.walk(expr)):
+            ctx.violation('C11.D8', '%s::%s' % (FF, fname), norm(expr)[:120],
+                          'grid.filter(\'dis == "AHU  1"\') (two blanks inside the literal): the text is rewritten with `%s` '
+                          'before it is parsed, the literal inside it changes too, and the rows whose dis is "AHU 1" are '
+                          'selected instead' % norm(expr)[:60],
+                          '%s rewrites the filter text (%s) before handing it to %s: literals inside the filter are '
+                          'rewritten as well' % (fname, ', '.join(u for u in used if u in TEXT_REWRITERS), callee),
+                          file=FF, line=c.lineno, engine='E7')
+        else:
+            ctx.error('C11.D8', '%s passes `%s` to %s: not the parameter itself and not a recognised rewrite; cannot decide'
+                      % (fname, norm(expr)[:80], callee))
+    ctx.floor('filter text hops', n, 3)
 
 
 def _unwrap(n):
